@@ -50,7 +50,7 @@ CHECKS = {
         "used as values (also of another block, and order ports), integer wire indices, non-function callees (also LoadFunction / Call nodes), case rows differing only in type arguments, disagreeing (also through add_if/add_else) / out-of-range (too large and negative) / repeated / unbuilt cases, mismatched exit "
         "branches (branch_exit and branch(src, exit)), declared-output mismatches, polymorphic calls without or with wrong instantiation, incomplete ops and containers at "
         "serialization, untracked / out-of-range tracked indices), each kind >= 50 times at depths 0, 1 and >= 2. A run that completes and "
-        "serializes, or raises another class, is a violation.",
+        "serializes, or raises another class where one is documented, is a violation (plain ValueError refusals are documented nowhere: any exception counts).",
         "Inside a basic block only 'source outside the enclosing CFG' is injected (the Block builder "
         "documents that relations inside a CFG are left to full validation); post-refusal HUGR state not judged.",
         "DESIGN.md §3 C13",
@@ -61,7 +61,8 @@ CHECKS = {
         "set_indexed_outputs / set_tracked_outputs with mixed integer and wire arguments (1-3 qubit ops, measure, copyable fan-out, ops whose "
         "argument position differs from the rebinding port) on circuits of width 1-6: `tracked` must equal the model after every step, "
         "IndexError must be raised exactly for untracked indices, and the resulting HUGR must equal the explicitly wired one incl. metadata. "
-        "Whole command groups go through ONE extend(...) call, Command objects are added a second time, track_inputs is also left to its default.",
+        "Whole command groups go through ONE extend(...) call, Command objects are added a second time, track_inputs is also left to its default, "
+        "Node handles are used as wires.",
         "Trusted: the 30-line tracking model in vf/props/c15.py. Negative indices not exercised.",
         "DESIGN.md §3 C15",
     ),
@@ -81,7 +82,8 @@ CHECKS = {
         "schemas as JSON values modulo the neutral `additionalProperties: true`; model version strings must equal the file-name suffixes and no "
         "other schema file may exist. Supporting: hundreds (quick) / thousands (thorough) of emitted HUGR/package/extension documents and "
         "mutations (required-key deletion incl. every top-level key systematically, unknown keys, unknown tags, wrong containers; also documents of the testing model) must get the same verdict from jsonschema under the "
-        "published file and from pydantic under the same configuration.",
+        "published file and from pydantic under the same configuration. The keys every compiled model validator reads (validation aliases included) "
+        "and the tags its unions dispatch on are compared with the published definitions (what schema emission does not show).",
         "Trusted: pydantic's schema emission describing its own validation (sampled by the differential, one open known finding about strict "
         "rebuilds); jsonschema Draft 2020-12. 'For all documents' is decided by structural identity, not by sampling.",
         "DESIGN.md §3 C17",
